@@ -528,6 +528,13 @@ func (s *sched) processHelper(tid int, h *schedHelper) (string, []int) {
 				t.state, t.parkedOn = tWoken, nil
 				delete(p, ev.tid)
 				woke = append(woke, ev.tid)
+			case evSignal, evBroadcast:
+				// Signal/Broadcast events carry no context (verifSig), so the ones emitted by goroutines
+				// left over from the previous case (released and cancelled by its close()) arrive here;
+				// they concern conditions of the previous subject, on which nobody of this case is parked
+				if len(s.parked[ev.cond]) > 0 {
+					s.note("unexpected-event-during-fire")
+				}
 			default:
 				s.note(fmt.Sprintf("unexpected-event-during-fire:%d:%d", ev.kind, ev.tid))
 			}
@@ -563,6 +570,75 @@ func (s *sched) run(choices []int, drainBound int) string {
 			return strings.Join(s.log, " ; ") + " ; " + s.failed
 		}
 	}
+	var parked []string
+	for _, t := range s.threads {
+		switch t.state {
+		case tParked:
+			parked = append(parked, fmt.Sprintf("%d@%s", t.id, s.name(t.parkedOn)))
+		case tWoken:
+			parked = append(parked, fmt.Sprintf("%d@woken", t.id))
+		}
+	}
+	s.log = append(s.log, fmt.Sprintf("final blocked=[%s] %s", strings.Join(parked, ","), s.subject.final()))
+	return strings.Join(s.log, " ; ")
+}
+
+// runPP is run with the drain policy of Conc.drainPP (for subjects whose waiters signal before
+// they park, pubsub.Deque): prefer starts, then helper fires, then the resume of a woken thread that
+// has not been seen to park again since the last segment that returned; stop when only such
+// re-parking resumes are left.
+func (s *sched) runPP(choices []int, drainBound int) string {
+	step := func(label string, en []string) (string, bool) {
+		obs := s.do(label)
+		s.log = append(s.log, fmt.Sprintf("{%s}%s=%s", strings.Join(en, ","), label, obs))
+		return obs, s.failed == ""
+	}
+	for _, c := range choices {
+		en := s.enabled(true)
+		if len(en) == 0 {
+			break
+		}
+		if _, ok := step(en[c%len(en)], en); !ok {
+			return strings.Join(s.log, " ; ") + " ; " + s.failed
+		}
+	}
+	checked := map[string]bool{}
+	for i := 0; i < drainBound; i++ {
+		en := s.enabled(false)
+		pick := ""
+		for _, kind := range []byte{'s', 'f', 'r'} {
+			for _, a := range en {
+				if a[0] == kind && !(kind == 'r' && checked[a[1:]]) {
+					pick = a
+					break
+				}
+			}
+			if pick != "" {
+				break
+			}
+		}
+		if pick == "" {
+			break
+		}
+		obs, ok := step(pick, en)
+		if !ok {
+			return strings.Join(s.log, " ; ") + " ; " + s.failed
+		}
+		switch pick[0] {
+		case 'r':
+			if strings.HasPrefix(obs, "park:") {
+				checked[pick[1:]] = true
+			} else {
+				checked = map[string]bool{}
+			}
+		case 's':
+			checked = map[string]bool{}
+		}
+	}
+	return s.finish()
+}
+
+func (s *sched) finish() string {
 	var parked []string
 	for _, t := range s.threads {
 		switch t.state {
